@@ -15,8 +15,8 @@ def run(ctx):
     quick = ctx.quick
     rng = ctx.rng.fork("C04")
     cases = []     # (kind, tx, line, forbid_som)
-    n_tx = 60 if quick else 800
-    n_miss = 90 if quick else 1500
+    n_tx = 60 if quick else 3000
+    n_miss = 90 if quick else 6000
     for _ in range(n_tx):
         mask = rng.choice([0b111111, 0b111111, rng.below(64)])
         tx = rxlib.Tx(rng, mask=mask, rate=rng.choice(rxlib.STD_RATES + [rng.range(8000, 48000)]))
@@ -28,7 +28,7 @@ def run(ctx):
         kind, tx, line = rxlib.near_miss_line(rng)
         cases.append((kind, tx, line, True))
     # long runs at a low rate: the forced end-of-message path (135 s timer) and what follows it
-    for j in range(6 if quick else 36):
+    for j in range(6 if quick else 72):
         H = samegen.gen_header(rng, nloc=1)
         H2 = samegen.gen_header(rng, nloc=2)
         tx = rxlib.Tx(rng, H=H, rate=rng.choice([8000] if quick else [8000, 11025]), impaired=False)
